@@ -122,12 +122,17 @@ def zeroCell : CType → Cell
 /-- Oracle for the built-in "ToUpper" (Unicode case mapping is a parameter; C18 treats the mapping itself). -/
 abbrev UpperOracle := Bytes → Bytes
 
-/-- One instruction applied to the rows selected by `mask` (all rows for `Apply`); other rows get the zero/null value. -/
-def applyInstr (up : UpperOracle) (f : LFrame) (mask : Nat → Bool) (ins : Instr) : Res :=
-  let build (ty : CType) (g : Nat → Cell) : Res :=
+/-- One instruction applied to the rows selected by `mask` (all rows for `Apply`); other rows get the zero/null value.
+`fillAll` mirrors the recorded finding KF-C06-fapply-fill: constants and column copies ignore the mask. -/
+def applyInstr (up : UpperOracle) (f : LFrame) (mask0 : Nat → Bool) (ins : Instr) (fillAll : Bool := false) : Res :=
+  let mask : Nat → Bool := match ins.fn with
+    | .const _ | .colCopy _ => if fillAll then (fun _ => true) else mask0
+    | _ => mask0
+  let buildZ (ty : CType) (z : Cell) (g : Nat → Cell) : Res :=
     if legalName ins.dst then
-      .ok (setCol f { name := ins.dst, ty := ty, cells := ((List.range f.n).map (fun r => if mask r then g r else zeroCell ty)).toArray })
+      .ok (setCol f { name := ins.dst, ty := ty, cells := ((List.range f.n).map (fun r => if mask r then g r else z)).toArray })
     else .err
+  let build (ty : CType) (g : Nat → Cell) : Res := buildZ ty (zeroCell ty) g
   match ins.src1, ins.src2 with
   | none, _ =>
     match ins.fn with
@@ -162,7 +167,8 @@ def applyInstr (up : UpperOracle) (f : LFrame) (mask : Nat → Bool) (ins : Inst
         | none => .err
       | .builtin name =>
         if name == strBytes "ToUpper" && c.ty == .string then
-          build .string (fun r => match c.cells[r]! with | .str (some s) => .str (some (up s)) | x => x)
+          -- the result is built as a packed string blob: rows outside the mask hold the empty string (the zero value)
+          buildZ .string (.str (some [])) (fun r => match c.cells[r]! with | .str (some s) => .str (some (up s)) | x => x)
         else .err
       | _ => .err
   | some s1, some s2 =>
@@ -177,10 +183,10 @@ def applyInstr (up : UpperOracle) (f : LFrame) (mask : Nat → Bool) (ins : Inst
       | _ => .err
     | _, _ => .err
 
-def applyS (up : UpperOracle) (f : LFrame) (mask : Nat → Bool) : List Instr → Res
+def applyS (up : UpperOracle) (f : LFrame) (mask : Nat → Bool) (fillAll : Bool := false) : List Instr → Res
   | [] => .ok f
-  | i :: is => match applyInstr up f mask i with
-    | .ok f' => applyS up f' mask is
+  | i :: is => match applyInstr up f mask i fillAll with
+    | .ok f' => applyS up f' mask fillAll is
     | .err => .err
 
 def rowNumsS (f : LFrame) (name : Bytes) : Res :=
@@ -188,8 +194,8 @@ def rowNumsS (f : LFrame) (name : Bytes) : Res :=
     .ok (setCol f { name := name, ty := .int, cells := ((List.range f.n).map (fun (r : Nat) => Cell.int (r : Int))).toArray })
   else .err
 
-def filteredApplyS (lo : LikeOracle) (up : UpperOracle) (f : LFrame) (c : Clause) (is : List Instr) : Res :=
-  if c.wellFormed lo f then applyS up f (c.sem lo f) is else .err
+def filteredApplyS (lo : LikeOracle) (up : UpperOracle) (f : LFrame) (c : Clause) (is : List Instr) (fillAll : Bool := false) : Res :=
+  if c.wellFormed lo f then applyS up f (c.sem lo f) fillAll is else .err
 
 /-! ## C07: Eval -/
 
